@@ -248,6 +248,13 @@ def run(chk):
     only = getattr(chk, "only", None)
     rnd = random.Random(chk.seed)
     fams = sc.families(chk.tier)
+    # a matmul with one row (M = 1) as the dart-scheduler pass hands it over after canonicalisation: the unit dimension
+    # is gone, the schedule has fewer dimensions (n, k) than the matmul template (m, n, k)
+    from xdsl.ir.affine import AffineConstantExpr, AffineDimExpr, AffineMap
+
+    d0_, d1_, zero_ = AffineDimExpr(0), AffineDimExpr(1), AffineConstantExpr(0)
+    mv = [AffineMap(2, 0, (zero_, d1_)), AffineMap(2, 0, (d1_, d0_)), AffineMap(2, 0, (zero_, d0_))]
+    fams = fams + [("matvec_on_matmul_template", sc.maps_matmul(), (8, 8, 8), mv, 2, (1, 1, 4))]
     chk.functions = [
         "snaxc.ir.dart.scheduler.scheduler_backtrack / is_pure_output_stationary / is_memory_flexible_enough",
         "snaxc.ir.dart.access_pattern.TemplatePattern.matches / same_nonzero_singular_vectors (concrete, SVD)",
